@@ -105,14 +105,15 @@ def c11(run, a):
     r = json.load(open(res))
     cov = run.coverage
     cov["states"] = meta["n"]
-    cov["transitions"] = r["codec"] + r["api"] + r["pagings"]
-    cov["evaluations"] = r["codec"] + r["api"] + r["pagings"]
+    cov["transitions"] = r["codec"] + r["api"] + r["pagings"] + r.get("batches", 0)
+    cov["evaluations"] = r["codec"] + r["api"] + r["pagings"] + r.get("batches", 0)
     cov["traces_validated_against_impl"] = r["api"]
     cov["distinct_nontrivial"] = r["api"]
     cov["exhaustive"] = True
     cov["rule"] = ("TLC enumerates every pod over names of length <= %d (alphabet a,b,0,-), 4 owner kinds, 3 pools, 2 namespaces and computes key, decoded fields and API entry from KeyCodec.tla "
                    "(PagingPartition checked on the spec); every pod goes through the real FormatKey/ParseKey (distinctness over all real keys), every k-th through the real HTTP handlers "
-                   "(allocate, list, post the entry back verbatim and with appType omitted for statefulsets, a second owner's ip must stay), paging with all sizes for n <= 6" % (2 if quick else 3))
+                   "(allocate, list, post the entry back verbatim and with appType omitted for statefulsets, a second owner's ip must stay), release requests with three listed entries of different owner kinds "
+                   "in both orders (EntryAddressesOwnKey: the key an entry addresses depends on that entry alone), paging with all sizes for n <= 6" % (2 if quick else 3))
     cov["samples"] = [meta["vectors"][0], meta["vectors"][len(meta["vectors"]) // 2]]
     for fd in r["findings"] or []:
         sig = {"check": fd["check"], "kind": fd["kind"]}
